@@ -19,14 +19,13 @@ Proof. decide equality; apply Nat.eq_dec. Qed.
 
 Lemma asite_eqb_eq s t : asite_eqb s t = true <-> s = t.
 Proof.
-  destruct s as [f i|f|k], t as [g j|g|l]; cbn; split; intros H; try discriminate.
-  - apply andb_true_iff in H. destruct H as [H1 H2]. apply Nat.eqb_eq in H1, H2. now subst.
-  - inversion H; subst. now rewrite !Nat.eqb_refl.
-  - apply Nat.eqb_eq in H. now subst.
-  - inversion H; subst. now rewrite Nat.eqb_refl.
-  - apply Nat.eqb_eq in H. now subst.
-  - inversion H; subst. now rewrite Nat.eqb_refl.
+  destruct s as [f i|f|k|f c|f c], t as [g j|g|l|g d|g d]; cbn; split; intros H; try discriminate;
+    try (apply andb_true_iff in H; destruct H as [H1 H2]; apply Nat.eqb_eq in H1, H2; now subst);
+    try (apply Nat.eqb_eq in H; now subst);
+    inversion H; subst; rewrite ?Nat.eqb_refl; reflexivity.
 Qed.
+Lemma asite_eqb_refl s : asite_eqb s s = true.
+Proof. now apply asite_eqb_eq. Qed.
 Lemma prod_eqb_eq p q : prod_eqb p q = true <-> p = q.
 Proof.
   destruct p as [| |s|], q as [| |t|]; cbn; split; intros H; try discriminate; auto.
@@ -135,15 +134,17 @@ Qed.
 
 (* ---------- the declarative form of the analysis ---------- *)
 Section Judgement.
-  Variable ALL : list trigger.      (* every trigger the analysis of the whole program emits *)
+  Variable Has : strig -> Prop.     (* the triggers that are available (in the form the context gives them) *)
   Variable ng : nat.                (* number of package-level variables *)
+  Variable ctr : fname -> bool.     (* contracted functions *)
+  Variable sp : fname -> bool.      (* callee in the package of the function at hand *)
   Variable f : fname.               (* the function at hand *)
 
-  Definition incl_all (tr : list trigger) : Prop := forall t, In t tr -> In t ALL.
+  Definition incl_all (tr : list strig) : Prop := forall t, In t tr -> Has t.
 
-  Definition args_ok (e : env) (g : fname) (args : list atom_e) : Prop :=
+  Definition args_ok (e : env) (sf : nat -> asite) (args : list atom_e) : Prop :=
     forall i a, nth_error args i = Some a -> forall p, In p (prods_of_atom e a) ->
-      In (mk_trigger 0 p (KCond (enc (SParam g i)))) ALL.
+      Has (mk_trigger 0 p (CSite (sf i))).
 
   Inductive J : stmt -> env -> option env -> Prop :=
     | JSkip e : J SSkip e (Some e)
@@ -152,10 +153,12 @@ Section Judgement.
     | JAssign x a e : incl_all (store_triggers x (prods_of_atom e a)) ->
         use_ok (prods_of_atom e a) || negb (is_glob x) = true ->
         J (SAssign x a) e (Some (aput e x (prods_of_atom e a)))
-    | JCall x g args e : args_ok e g args -> forallb (fun a => use_ok (prods_of_atom e a)) args = true ->
-        incl_all (match x with Some y => store_triggers y [PSite (SResult g)] | None => [] end) ->
-        J (SCall x g args) e (Some (match x with Some y => aput (mark_stale ng e) y [PSite (SResult g)] | None => mark_stale ng e end))
-    | JDeref d x e : (forall p, In p (aget e x) -> In (mk_trigger d p KAlways) ALL) -> use_ok (aget e x) = true ->
+    | JCall cs x g args e : args_ok e (call_param_site ctr g cs) args ->
+        forallb (fun a => use_ok (prods_of_atom e a)) args = true ->
+        incl_all (match x with Some y => store_triggers y [PSite (call_result_site ctr sp g cs args)] | None => [] end) ->
+        J (SCall cs x g args) e
+          (Some (match x with Some y => aput (mark_stale ng e) y [PSite (call_result_site ctr sp g cs args)] | None => mark_stale ng e end))
+    | JDeref d x e : (forall p, In p (aget e x) -> Has (mk_trigger d p CAlways)) -> use_ok (aget e x) = true ->
         J (SDeref d x) e (Some e)
     | JIf c s1 s2 e et ef trc o1 o2 : acond c e = (et, ef, trc, true) -> incl_all trc ->
         J s1 et o1 -> J s2 ef o2 -> J (SIf c s1 s2) e (join_opt o1 o2)
@@ -163,7 +166,7 @@ Section Judgement.
         env_le e einv -> acond c einv = (et, ef, trc, true) -> incl_all trc -> J body et ob ->
         (forall eb, ob = Some eb -> env_le eb einv) ->
         J (SWhile c body) e (Some ef)
-    | JReturn a e : (forall p, In p (prods_of_atom e a) -> In (mk_trigger 0 p (KCond (enc (SResult f)))) ALL) ->
+    | JReturn a e : (forall p, In p (prods_of_atom e a) -> Has (mk_trigger 0 p (CSite (SResult f)))) ->
         use_ok (prods_of_atom e a) = true -> J (SReturn a) e None.
 
   Lemma J_skip_inv e o : J SSkip e o -> o = Some e.
@@ -174,13 +177,13 @@ Section Judgement.
     incl_all (store_triggers x (prods_of_atom e a)) /\ use_ok (prods_of_atom e a) || negb (is_glob x) = true /\
     o = Some (aput e x (prods_of_atom e a)).
   Proof. inversion 1; subst; auto. Qed.
-  Lemma J_call_inv x g args e o : J (SCall x g args) e o ->
-    args_ok e g args /\ forallb (fun a => use_ok (prods_of_atom e a)) args = true /\
-    incl_all (match x with Some y => store_triggers y [PSite (SResult g)] | None => [] end) /\
-    o = Some (match x with Some y => aput (mark_stale ng e) y [PSite (SResult g)] | None => mark_stale ng e end).
+  Lemma J_call_inv cs x g args e o : J (SCall cs x g args) e o ->
+    args_ok e (call_param_site ctr g cs) args /\ forallb (fun a => use_ok (prods_of_atom e a)) args = true /\
+    incl_all (match x with Some y => store_triggers y [PSite (call_result_site ctr sp g cs args)] | None => [] end) /\
+    o = Some (match x with Some y => aput (mark_stale ng e) y [PSite (call_result_site ctr sp g cs args)] | None => mark_stale ng e end).
   Proof. inversion 1; subst; auto. Qed.
   Lemma J_deref_inv d x e o : J (SDeref d x) e o ->
-    (forall p, In p (aget e x) -> In (mk_trigger d p KAlways) ALL) /\ use_ok (aget e x) = true /\ o = Some e.
+    (forall p, In p (aget e x) -> Has (mk_trigger d p CAlways)) /\ use_ok (aget e x) = true /\ o = Some e.
   Proof. inversion 1; subst; auto. Qed.
   Lemma J_if_inv c s1 s2 e o : J (SIf c s1 s2) e o ->
     exists et ef trc o1 o2, acond c e = (et, ef, trc, true) /\ incl_all trc /\ J s1 et o1 /\ J s2 ef o2 /\ o = join_opt o1 o2.
@@ -190,14 +193,14 @@ Section Judgement.
       (forall eb, ob = Some eb -> env_le eb einv) /\ o = Some ef.
   Proof. inversion 1; subst. do 5 eexists. eauto 10. Qed.
   Lemma J_return_inv a e o : J (SReturn a) e o ->
-    (forall p, In p (prods_of_atom e a) -> In (mk_trigger 0 p (KCond (enc (SResult f)))) ALL) /\
+    (forall p, In p (prods_of_atom e a) -> Has (mk_trigger 0 p (CSite (SResult f)))) /\
     use_ok (prods_of_atom e a) = true /\ o = None.
   Proof. inversion 1; subst; auto. Qed.
 
-  Lemma arg_triggers_ok e g : forall args i0,
-    (forall t, In t (arg_triggers e g i0 args) -> In t ALL) ->
+  Lemma arg_triggers_ok e sf : forall args i0,
+    (forall t, In t (arg_triggers e sf i0 args) -> Has t) ->
     forall i a, nth_error args i = Some a -> forall p, In p (prods_of_atom e a) ->
-      In (mk_trigger 0 p (KCond (enc (SParam g (i0 + i))))) ALL.
+      Has (mk_trigger 0 p (CSite (sf (i0 + i)))).
   Proof.
     induction args as [|a0 args IH]; intros i0 H i a Hn p Hp; [destruct i; discriminate|].
     destruct i as [|i]; cbn in Hn.
@@ -230,28 +233,28 @@ Section Judgement.
 
   (* the executable analysis produces derivations *)
   Lemma analyze_J fuel : forall st e r,
-    analyze ng f fuel st e = Some r -> a_gsafe r = true -> incl_all (a_trig r) -> J st e (a_env r).
+    analyze ng ctr sp f fuel st e = Some r -> a_gsafe r = true -> incl_all (a_trig r) -> J st e (a_env r).
   Proof.
-    induction st as [| s1 IH1 s2 IH2 | x a | x g args | d x | c s1 IH1 s2 IH2 | c body IH | a]; intros e r H Hg Hall; cbn in H.
+    induction st as [| s1 IH1 s2 IH2 | x a | cs x g args | d x | c s1 IH1 s2 IH2 | c body IH | a]; intros e r H Hg Hall; cbn in H.
     - inversion H; subst. constructor.
-    - destruct (analyze ng f fuel s1 e) as [r1|] eqn:E1; try discriminate.
+    - destruct (analyze ng ctr sp f fuel s1 e) as [r1|] eqn:E1; try discriminate.
       destruct (a_env r1) as [e1|] eqn:Ee1.
-      + destruct (analyze ng f fuel s2 e1) as [r2|] eqn:E2; try discriminate. inversion H; subst. cbn in *.
+      + destruct (analyze ng ctr sp f fuel s2 e1) as [r2|] eqn:E2; try discriminate. inversion H; subst. cbn in *.
         apply andb_true_iff in Hg. destruct Hg as [Hg1 Hg2]. apply incl_all_app in Hall. destruct Hall as [Ha1 Ha2].
         eapply JSeq; [rewrite <- Ee1; eapply IH1; eauto | eapply IH2; eauto].
       + inversion H; subst. rewrite Ee1. apply JSeqN. rewrite <- Ee1. eapply IH1; eauto.
     - inversion H; subst. cbn in *. constructor; auto.
     - inversion H; subst. cbn in *. apply incl_all_app in Hall. destruct Hall as [Ha1 Ha2]. constructor; auto.
-      intros i a Hn p Hp. apply (arg_triggers_ok e g args 0 Ha1 i a Hn p Hp).
+      intros i a Hn p Hp. apply (arg_triggers_ok e (call_param_site ctr g cs) args 0 Ha1 i a Hn p Hp).
     - inversion H; subst. cbn in *. constructor; auto. intros p Hp. apply Hall. apply in_map_iff. exists p. auto.
     - destruct (acond c e) as [[[et ef] trc] bc] eqn:Ec.
-      destruct (analyze ng f fuel s1 et) as [r1|] eqn:E1; try discriminate.
-      destruct (analyze ng f fuel s2 ef) as [r2|] eqn:E2; try discriminate.
+      destruct (analyze ng ctr sp f fuel s1 et) as [r1|] eqn:E1; try discriminate.
+      destruct (analyze ng ctr sp f fuel s2 ef) as [r2|] eqn:E2; try discriminate.
       inversion H; subst. cbn in *. apply andb_true_iff in Hg. destruct Hg as [Hg Hg2].
       apply andb_true_iff in Hg. destruct Hg as [Hbc Hg1]. subst bc.
       apply incl_all_app in Hall. destruct Hall as [Ha0 Hall]. apply incl_all_app in Hall. destruct Hall as [Ha1 Ha2].
       eapply JIf; eauto.
-    - destruct (loop_inv (analyze ng f fuel body) c fuel e) as [[einv r0]|] eqn:El; try discriminate.
+    - destruct (loop_inv (analyze ng ctr sp f fuel body) c fuel e) as [[einv r0]|] eqn:El; try discriminate.
       destruct (loop_inv_spec _ _ _ _ _ _ El) as [H1 [H2 H3]]. unfold cond_true in H2.
       destruct (acond c einv) as [[[et ef] trc] bc] eqn:Ec. inversion H; subst. cbn in *.
       apply andb_true_iff in Hg. destruct Hg as [Hbc Hg1]. subst bc.
@@ -374,7 +377,7 @@ Proof.
 Qed.
 
 Lemma decl_triggers_in gi : forall k0 k, nth_error gi k = Some false ->
-  In (mk_trigger 0 PNil (KCond (enc (SGlobal (k0 + k))))) (decl_triggers k0 gi).
+  In (mk_trigger 0 PNil (CSite (SGlobal (k0 + k)))) (decl_triggers k0 gi).
 Proof.
   induction gi as [|b gi IH]; intros k0 k H; [destruct k; discriminate|].
   destruct k as [|k]; cbn in H.
@@ -383,82 +386,190 @@ Proof.
 Qed.
 
 (* ---------- soundness ---------- *)
+(* the run-time meaning of a nonnil->nonnil contract: started with a non-nil argument (whatever the package-level
+   variables hold and the opaque conditions answer), the function returns a non-nil value *)
+Definition contract_true (prog : program) (fd : func) : Prop :=
+  forall fuel gs oracle,
+    match exec prog fuel (f_body fd) (bind_params 0 [VPtr] ++ gs) oracle with
+    | OReturn v _ _ => v = VPtr
+    | ONormal _ _ => False
+    | _ => True
+    end.
+
 Section Sound.
   Variable prog : program.
-  Variable ALL : list trigger.
+  Variable ctr : fname -> bool.
+  Variable sp2 : fname -> fname -> bool.
+  Variable ALLs : list strig.
+  Let ALL := map etrig ALLs.
   Let C := csys_of [] [] ALL.
   Let ng := length (p_ginit prog).
   Hypothesis NoFlow : ~ has_flow C.
 
-  (* every function has a derivation from its entry environment, and a function that can fall off its end has
-     the "returns the zero value" trigger *)
-  Hypothesis FuncsOK : forall g fd, nth_error (p_funcs prog) g = Some fd ->
-    exists o, J ALL ng g (f_body fd) (entry_env g 0 (f_nparams fd)) o /\
-              (o <> None -> In (mk_trigger 0 PNil (KCond (enc (SResult g)))) ALL).
+  (* a function runs either in its own right (None) or, when it has a contract, on behalf of one call site
+     (Some cs): its triggers are then read through the duplication onto that call site *)
+  Definition psub (g : fname) (c : option nat) (p : prod) : prod :=
+    match c with
+    | Some cs => if prod_eqb p (PSite (SParam g 0)) then PSite (SCallParam g cs) else p
+    | None => p
+    end.
+  Definition rsub (g : fname) (c : option nat) (s : asite) : asite :=
+    match c with
+    | Some cs => if asite_eqb s (SResult g) then SCallResult g cs else s
+    | None => s
+    end.
+  Definition inst (g : fname) (c : option nat) (t : strig) : strig :=
+    match c with
+    | Some cs => if touches g t then dupt g cs t else t
+    | None => t
+    end.
+  Definition Has (g : fname) (c : option nat) (t : strig) : Prop := In (inst g c t) ALLs.
+
+  Definition ctx_ok (g : fname) (c : option nat) : Prop :=
+    match c with
+    | None => True
+    | Some cs => ctr g = true /\ exists fc fdc, nth_error (p_funcs prog) fc = Some fdc /\
+                                  In (g, cs) (calls_of (f_body fdc)) /\ sp2 fc g = true
+    end.
+
+  Hypothesis FuncsOK : forall g fd c, nth_error (p_funcs prog) g = Some fd -> ctx_ok g c ->
+    exists o, J (Has g c) ng ctr (sp2 g) g (f_body fd) (entry_env g 0 (f_nparams fd)) o /\
+              (o <> None -> Has g c (falloff g)).
   Hypothesis WF : forall g fd, nth_error (p_funcs prog) g = Some fd -> stmt_ok prog (f_body fd) = true.
+  Hypothesis CtrTrue : forall g fd, ctr g = true -> nth_error (p_funcs prog) g = Some fd ->
+    f_nparams fd = 1 /\ contract_true prog fd.
+  (* every call of a contracted function comes from the callee's package *)
+  Definition calls_ok (g : fname) (st : stmt) : Prop :=
+    forall h cs, In (h, cs) (calls_of st) -> ctr h = true -> sp2 g h = true /\ ctx_ok h (Some cs).
+  Hypothesis CallsOK : forall g fd, nth_error (p_funcs prog) g = Some fd -> calls_ok g (f_body fd).
 
   Definition nu (s : asite) : Prop := nilr C (enc s).
   Definition nilable (p : prod) : Prop := match p with PNil | PStale => True | PNever => False | PSite s => nu s end.
-  Definition respects (s : store) (e : env) : Prop :=
-    forall x, var_ok prog x = true -> sget s x = VNil -> exists p, In p (aget e x) /\ nilable p.
+  Definition respects (g : fname) (c : option nat) (s : store) (e : env) : Prop :=
+    forall x, var_ok prog x = true -> sget s x = VNil -> exists p, In p (aget e x) /\ nilable (psub g c p).
   (* a package-level variable that holds nil has a nil-able site *)
   Definition GInv (s : store) : Prop := forall k, k < ng -> sget s (VG k) = VNil -> nu (SGlobal k).
+  (* what a nil result means for the caller *)
+  Definition ret_ok (g : fname) (c : option nat) : Prop :=
+    match c with
+    | None => nu (SResult g)
+    | Some cs => nu (SCallParam g cs) -> nu (SCallResult g cs)
+    end.
 
-  Lemma in_base t a : In t ALL -> t_ctrl t = None -> In a (atoms_of_trigger t) -> In a (base C).
+  Lemma psub_stale g c p : psub g c p = PStale <-> p = PStale.
   Proof.
-    intros Ht Hc Ha. unfold C, csys_of. cbn. apply in_flat_map. exists t. split; auto.
-    apply filter_In. split; auto. unfold controlled. now rewrite Hc.
+    destruct c as [cs|]; cbn; [|tauto]. destruct (prod_eqb p (PSite (SParam g 0))) eqn:E; [|tauto].
+    apply prod_eqb_eq in E. subst. split; discriminate.
   Qed.
 
-  Lemma trigger_to_site id p k : In (mk_trigger id p (KCond k)) ALL -> nilable p -> p <> PStale -> nilr C k.
+  (* the form of an instantiated trigger *)
+  Lemma inst_mk g c id p k :
+    inst g c (mk_trigger id p k) =
+    {| s_id := id; s_prod := psub g c p;
+       s_cons := match k with CSite s => CSite (rsub g c s) | CAlways => CAlways end;
+       s_ctrl := match c, k with
+                 | Some cs, CSite s => if asite_eqb s (SResult g) then Some (SCallParam g cs) else None
+                 | _, _ => None
+                 end |}.
   Proof.
-    intros Ht Hn Hs. destruct p as [| |s|]; cbn in Hn; [|contradiction| |congruence].
-    - apply nr_src. eapply in_base; eauto. cbn. left; reflexivity.
-    - apply nr_edge with (enc s) id; auto. eapply in_base; eauto. cbn. left; reflexivity.
+    destruct c as [cs|]; cbn; [|destruct k; reflexivity].
+    unfold touches, dupt, is_param_prod, is_res_cons. cbn.
+    destruct (prod_eqb p (PSite (SParam g 0))) eqn:E1; destruct k as [|s]; cbn; try reflexivity;
+      destruct (asite_eqb s (SResult g)) eqn:E2; cbn; reflexivity.
   Qed.
 
-  Lemma trigger_to_deref id p : In (mk_trigger id p KAlways) ALL -> nilable p -> p <> PStale -> False.
+  Lemma in_base t a : In t ALLs -> s_ctrl t = None -> In a (atoms_of_trigger (etrig t)) -> In a (base C).
   Proof.
-    intros Ht Hn Hs. apply NoFlow. destruct p as [| |s|]; cbn in Hn; [|contradiction| |congruence].
-    - left. exists id. left. eapply in_base; eauto. cbn. left; reflexivity.
-    - right. exists (enc s). split; auto. apply nn_snk. left. eapply in_base; eauto. cbn. left; reflexivity.
+    intros Ht Hc Ha. unfold C, csys_of. cbn. apply in_flat_map. exists (etrig t). split; auto.
+    apply filter_In. split; [apply in_map; auto|]. unfold controlled, etrig. cbn. now rewrite Hc.
+  Qed.
+  Lemma in_ctld t k a : In t ALLs -> s_ctrl t = Some k -> In a (atoms_of_trigger (etrig t)) -> In (enc k, a) (ctld C).
+  Proof.
+    intros Ht Hc Ha. unfold C, csys_of. cbn. apply in_flat_map. exists (etrig t). split; [apply in_map; auto|].
+    unfold etrig at 1. cbn. rewrite Hc. apply in_map_iff. exists a. auto.
   Qed.
 
-  Lemma respects_le s e1 e2 : respects s e1 -> env_le e1 e2 -> respects s e2.
+  (* a use at a site: a nil-able producer makes the (instantiated) site nil-able, provided the controller of a
+     duplicated return trigger is *)
+  Lemma tsite g c id p s : Has g c (mk_trigger id p (CSite s)) -> nilable (psub g c p) -> p <> PStale ->
+    (forall cs, c = Some cs -> asite_eqb s (SResult g) = true -> nu (SCallParam g cs)) ->
+    nu (rsub g c s).
+  Proof.
+    unfold Has. rewrite inst_mk. intros Ht Hn Hs Hctl.
+    set (t := {| s_id := id; s_prod := psub g c p; s_cons := CSite (rsub g c s);
+                 s_ctrl := match c with Some cs => if asite_eqb s (SResult g) then Some (SCallParam g cs) else None | None => None end |}) in *.
+    assert (Hs' : psub g c p <> PStale) by (intros E; apply psub_stale in E; contradiction).
+    destruct (s_ctrl t) as [k|] eqn:Ek.
+    - assert (Hk : nu k).
+      { subst t. cbn in Ek. destruct c as [cs|]; [|discriminate]. destruct (asite_eqb s (SResult g)) eqn:E; [|discriminate].
+        inversion Ek; subst. eapply Hctl; eauto. }
+      destruct (psub g c p) as [| |q|] eqn:Ep; cbn in Hn; try contradiction; try congruence.
+      + eapply nr_csrc; [|exact Hk]. eapply (in_ctld t k); eauto. unfold atoms_of_trigger, etrig. subst t. cbn. rewrite ?Ep. left; reflexivity.
+      + eapply nr_cedge with (p := enc q) (t := id); [|exact Hk|exact Hn].
+        eapply (in_ctld t k); eauto. unfold atoms_of_trigger, etrig. subst t. cbn. rewrite ?Ep. left; reflexivity.
+    - destruct (psub g c p) as [| |q|] eqn:Ep; cbn in Hn; try contradiction; try congruence.
+      + apply nr_src. eapply (in_base t); eauto. unfold atoms_of_trigger, etrig. subst t. cbn. rewrite ?Ep. left; reflexivity.
+      + apply nr_edge with (enc q) id; auto. eapply (in_base t); eauto. unfold atoms_of_trigger, etrig. subst t. cbn. rewrite ?Ep. left; reflexivity.
+  Qed.
+
+  Lemma tderef g c id p : Has g c (mk_trigger id p CAlways) -> nilable (psub g c p) -> p <> PStale -> False.
+  Proof.
+    unfold Has. rewrite inst_mk. intros Ht Hn Hs. apply NoFlow.
+    assert (Hs' : psub g c p <> PStale) by (intros E; apply psub_stale in E; contradiction).
+    set (t := {| s_id := id; s_prod := psub g c p; s_cons := CAlways;
+                 s_ctrl := match c with Some _ => None | None => None end |}) in *.
+    assert (Ek : s_ctrl t = None) by (subst t; cbn; destruct c; reflexivity).
+    destruct (psub g c p) as [| |q|] eqn:Ep; cbn in Hn; try contradiction; try congruence.
+    - left. exists id. left. eapply (in_base t); eauto. unfold atoms_of_trigger, etrig. subst t. cbn. rewrite ?Ep. left; reflexivity.
+    - right. exists (enc q). split; auto. apply nn_snk. left. eapply (in_base t); eauto.
+      unfold atoms_of_trigger, etrig. subst t. cbn. rewrite ?Ep. left; reflexivity.
+  Qed.
+
+  (* sites other than the function's own result are never controlled *)
+  Lemma tsite_plain g c id p s : Has g c (mk_trigger id p (CSite s)) -> nilable (psub g c p) -> p <> PStale ->
+    asite_eqb s (SResult g) = false -> nu s.
+  Proof.
+    intros Ht Hn Hs Hne.
+    assert (E : rsub g c s = s) by (unfold rsub; destruct c; auto; now rewrite Hne).
+    unfold nu. rewrite <- E. eapply tsite; eauto. intros cs _ E2. congruence.
+  Qed.
+
+  Lemma respects_le g c s e1 e2 : respects g c s e1 -> env_le e1 e2 -> respects g c s e2.
   Proof. intros H Hle x Hok Hx. destruct (H x Hok Hx) as [p [Hp Hn]]. exists p. split; auto. Qed.
 
-  Lemma inv_assign s e x v a :
-    respects s e -> GInv s -> (v = VNil -> exists p, In p a /\ nilable p) -> incl_all ALL (store_triggers x a) ->
-    use_ok a || negb (is_glob x) = true ->
-    respects (sset s x v) (aput e x a) /\ GInv (sset s x v).
+  Lemma inv_assign g c s e x v a :
+    respects g c s e -> GInv s -> (v = VNil -> exists p, In p a /\ nilable (psub g c p)) ->
+    incl_all (Has g c) (store_triggers x a) -> use_ok a || negb (is_glob x) = true ->
+    respects g c (sset s x v) (aput e x a) /\ GInv (sset s x v).
   Proof.
     intros H HG Hv Hst Hu. split.
     - intros y Hok Hy. rewrite sget_sset in Hy. rewrite aget_aput. destruct (var_eqb x y); auto.
     - intros k Hk Hy. rewrite sget_sset in Hy. destruct (var_eqb x (VG k)) eqn:E; auto.
       apply var_eqb_eq in E. subst x. destruct (Hv Hy) as [p [Hp Hn]].
       cbn in Hu. rewrite orb_false_r in Hu.
-      eapply trigger_to_site; [|exact Hn|eapply use_ok_in; eauto]. apply Hst. cbn. apply in_map_iff. exists p. split; eauto.
+      eapply (tsite_plain g c 0 p (SGlobal k)); [|exact Hn|eapply use_ok_in; eauto|reflexivity].
+      apply Hst. cbn. apply in_map_iff. exists p. split; eauto.
   Qed.
 
-  Lemma eval_atom_respects s e a : atom_ok prog a = true -> respects s e -> eval_atom s a = VNil ->
-    exists p, In p (prods_of_atom e a) /\ nilable p.
+  Lemma eval_atom_respects g c s e a : atom_ok prog a = true -> respects g c s e -> eval_atom s a = VNil ->
+    exists p, In p (prods_of_atom e a) /\ nilable (psub g c p).
   Proof.
     intros Hok H Hv. destruct a as [| |x]; cbn in *.
-    - exists PNil. cbn. auto.
+    - exists PNil. split; [left; reflexivity|]. destruct c; cbn; auto.
     - discriminate.
     - auto.
   Qed.
 
-  Lemma respects_nonnil s e x : respects s e -> sget s x = VPtr -> respects s (aput e x [PNever]).
+  Lemma respects_nonnil g c s e x : respects g c s e -> sget s x = VPtr -> respects g c s (aput e x [PNever]).
   Proof.
     intros H Hx y Hok Hy. rewrite aget_aput. destruct (var_eqb x y) eqn:E; auto.
     apply var_eqb_eq in E; subst. congruence.
   Qed.
 
-  Lemma acond_sound c : forall e et ef tr s oracle,
-    acond c e = (et, ef, tr, true) -> incl_all ALL tr -> cond_ok prog c = true -> respects s e ->
+  Lemma acond_sound g c0 c : forall e et ef tr s oracle,
+    acond c e = (et, ef, tr, true) -> incl_all (Has g c0) tr -> cond_ok prog c = true -> respects g c0 s e ->
     match eval_cond s c oracle with
-    | CVal b _ => respects s (if b then et else ef)
+    | CVal b _ => respects g c0 s (if b then et else ef)
     | CPanic _ => False
     end.
   Proof.
@@ -466,7 +577,7 @@ Section Sound.
     - inversion Ha; subst. destruct (ask oracle) as [b o]. now destruct b.
     - inversion Ha; subst. destruct (sget s x) eqn:E; auto. now apply respects_nonnil.
     - inversion Ha as [[E1 E2 E3 Hu]]; subst. destruct (sget s x) eqn:E.
-      + destruct (Hr x Hok E) as [p [Hp Hn]]. eapply trigger_to_deref; [|exact Hn|eapply use_ok_in; eauto].
+      + destruct (Hr x Hok E) as [p [Hp Hn]]. eapply tderef; [|exact Hn|eapply use_ok_in; eauto].
         apply Hall. apply in_map_iff. exists p. eauto.
       + destruct (ask oracle) as [b o]. now destruct b.
     - destruct (acond c e) as [[[et1 ef1] tr1] b1] eqn:E1. inversion Ha; subst.
@@ -495,35 +606,48 @@ Section Sound.
   Lemma forallb_nth {A} (P : A -> bool) l i a : forallb P l = true -> nth_error l i = Some a -> P a = true.
   Proof. intros H Hn. rewrite forallb_forall in H. apply H. eapply nth_error_In; eauto. Qed.
 
+  (* an argument that is nil makes its (call-site) parameter site nil-able *)
+  Lemma arg_site g c s e h cs args i a :
+    respects g c s e -> args_ok (Has g c) e (call_param_site ctr h cs) args ->
+    forallb (atom_ok prog) args = true -> forallb (fun a => use_ok (prods_of_atom e a)) args = true ->
+    nth_error args i = Some a -> eval_atom s a = VNil -> nu (call_param_site ctr h cs i).
+  Proof.
+    intros Hr Hargs Hoks Hus Ea Hv.
+    destruct (eval_atom_respects g c s e a (forallb_nth _ _ _ _ Hoks Ea) Hr Hv) as [p [Hp Hn]].
+    eapply (tsite_plain g c 0 p); [exact (Hargs i a Ea p Hp) | exact Hn | |].
+    - eapply use_ok_in; [|exact Hp]. apply (forallb_nth (fun a => use_ok (prods_of_atom e a)) _ _ _ Hus Ea).
+    - unfold call_param_site. destruct (ctr h); reflexivity.
+  Qed.
+
   (* the arguments of a call, and the package-level variables, respect the callee's entry environment *)
-  Lemma call_entry s e g args n :
-    respects s e -> GInv s -> args_ok ALL e g args -> forallb (atom_ok prog) args = true ->
+  Lemma call_entry g c s e h cs args n (c' : option nat) :
+    respects g c s e -> GInv s -> args_ok (Has g c) e (call_param_site ctr h cs) args ->
+    forallb (atom_ok prog) args = true ->
     forallb (fun a => use_ok (prods_of_atom e a)) args = true -> length args = n ->
-    respects (bind_params 0 (map (eval_atom s) args) ++ globals_of s) (entry_env g 0 n) /\
+    (forall i, i < n -> psub h c' (PSite (SParam h i)) = PSite (call_param_site ctr h cs i)) ->
+    respects h c' (bind_params 0 (map (eval_atom s) args) ++ globals_of s) (entry_env h 0 n) /\
     GInv (bind_params 0 (map (eval_atom s) args) ++ globals_of s).
   Proof.
-    intros Hr HG Hargs Hoks Hus Hlen. split.
+    intros Hr HG Hargs Hoks Hus Hlen Hsub. split.
     - intros x Hok Hx. rewrite sget_callee in Hx. rewrite entry_env_get. destruct x as [i|k].
       + cbn [Nat.leb andb Nat.add]. destruct (Nat.ltb i n) eqn:L.
-        * apply Nat.ltb_lt in L. exists (PSite (SParam g i)). split; [left; reflexivity|]. cbn.
+        * apply Nat.ltb_lt in L. exists (PSite (SParam h i)). split; [left; reflexivity|]. rewrite (Hsub i L). cbn.
           destruct (nth_error (map (eval_atom s) args) i) as [v|] eqn:En.
           -- subst v. rewrite nth_error_map in En. destruct (nth_error args i) as [a|] eqn:Ea; [|discriminate].
-             cbn in En. inversion En as [Hv].
-             destruct (eval_atom_respects s e a (forallb_nth _ _ _ _ Hoks Ea) Hr Hv) as [p [Hp Hn]].
-             eapply trigger_to_site; [exact (Hargs i a Ea p Hp) | exact Hn |].
-             eapply use_ok_in; [|exact Hp]. apply (forallb_nth (fun a => use_ok (prods_of_atom e a)) _ _ _ Hus Ea).
+             cbn in En. inversion En as [Hv]. eapply arg_site; eauto.
           -- apply nth_error_None in En. rewrite map_length in En. lia.
-        * exists PNil. split; [left; reflexivity | exact I].
-      + exists (PSite (SGlobal k)). split; [left; reflexivity|]. cbn. apply HG; auto.
-        cbn in Hok. now apply Nat.ltb_lt in Hok.
+        * exists PNil. split; [left; reflexivity |]. destruct c'; cbn; auto.
+      + exists (PSite (SGlobal k)). split; [left; reflexivity|].
+        assert (E : psub h c' (PSite (SGlobal k)) = PSite (SGlobal k)) by (destruct c'; reflexivity).
+        rewrite E. cbn. apply HG; auto. cbn in Hok. now apply Nat.ltb_lt in Hok.
     - intros k Hk Hx. rewrite sget_callee in Hx. auto.
   Qed.
 
   (* back in the caller: locals as before the call, package-level variables as the callee left them; those
      whose tracked value is no longer (also) their site are marked stale *)
-  Lemma after_call s s' e :
-    respects s e -> GInv s' ->
-    respects (globals_of s' ++ locals_of s) (mark_stale ng e) /\ GInv (globals_of s' ++ locals_of s).
+  Lemma after_call g c s s' e :
+    respects g c s e -> GInv s' ->
+    respects g c (globals_of s' ++ locals_of s) (mark_stale ng e) /\ GInv (globals_of s' ++ locals_of s).
   Proof.
     intros Hr HG. split.
     - intros x Hok Hx. rewrite sget_after in Hx. rewrite aget_mark_stale. destruct x as [i|k]; cbn in Hx.
@@ -531,94 +655,157 @@ Section Sound.
       + assert (Hk : Nat.ltb k ng = true) by exact Hok. rewrite Hk. cbn [andb]. apply Nat.ltb_lt in Hk. destruct (fresh e k) eqn:F; cbn [negb].
         * exists (PSite (SGlobal k)). split.
           -- unfold fresh in F. apply existsb_exists in F. destruct F as [q [Hq E]]. apply prod_eqb_eq in E. now subst.
-          -- cbn. apply HG; auto.
-        * exists PStale. split; [left; reflexivity|exact I].
+          -- assert (E : psub g c (PSite (SGlobal k)) = PSite (SGlobal k)) by (destruct c; reflexivity).
+             rewrite E. cbn. apply HG; auto.
+        * exists PStale. split; [left; reflexivity|]. destruct c; exact I.
     - intros k Hk Hx. rewrite sget_after in Hx. cbn in Hx. auto.
   Qed.
 
-  Theorem J_sound : forall fuel f st s oracle e o,
-    J ALL ng f st e o -> stmt_ok prog st = true -> respects s e -> GInv s ->
+  Lemma calls_ok_seq g a b : calls_ok g (SSeq a b) -> calls_ok g a /\ calls_ok g b.
+  Proof. intros H. split; intros h cs Hi; apply H; cbn; apply in_or_app; auto. Qed.
+  Lemma calls_ok_if g c a b : calls_ok g (SIf c a b) -> calls_ok g a /\ calls_ok g b.
+  Proof. intros H. split; intros h cs Hi; apply H; cbn; apply in_or_app; auto. Qed.
+
+  Theorem J_sound : forall fuel g c st s oracle e o,
+    J (Has g c) ng ctr (sp2 g) g st e o -> stmt_ok prog st = true -> calls_ok g st ->
+    respects g c s e -> GInv s ->
     match exec prog fuel st s oracle with
-    | ONormal s' _ => (exists e', o = Some e' /\ respects s' e') /\ GInv s'
-    | OReturn v s' _ => (v = VNil -> nu (SResult f)) /\ GInv s'
+    | ONormal s' _ => (exists e', o = Some e' /\ respects g c s' e') /\ GInv s'
+    | OReturn v s' _ => (v = VNil -> ret_ok g c) /\ GInv s'
     | OPanic _ => False
     | OOutOfFuel => True
     end.
   Proof.
-    induction fuel as [|fuel IH]; intros f st s oracle e o HJ Hok Hr HG; cbn [exec]; auto.
-    destruct st as [| s1 s2 | x a | x g args | d x | c s1 s2 | c body | a]; cbn in Hok.
+    induction fuel as [|fuel IH]; intros g c st s oracle e o HJ Hok Hcalls Hr HG; cbn [exec]; auto.
+    destruct st as [| s1 s2 | x a | cs x h args | d x | cd s1 s2 | cd body | a]; cbn in Hok.
     - apply J_skip_inv in HJ. subst. eauto.
-    - apply andb_true_iff in Hok. destruct Hok as [Hc1 Hc2]. apply J_seq_inv in HJ. destruct HJ as [[H1 ->]|[e1 [H1 H2]]].
-      + pose proof (IH f s1 s oracle e None H1 Hc1 Hr HG) as R. destruct (exec prog fuel s1 s oracle); auto.
+    - apply andb_true_iff in Hok. destruct Hok as [Hc1 Hc2]. apply calls_ok_seq in Hcalls. destruct Hcalls as [Hk1 Hk2].
+      apply J_seq_inv in HJ. destruct HJ as [[H1 ->]|[e1 [H1 H2]]].
+      + pose proof (IH g c s1 s oracle e None H1 Hc1 Hk1 Hr HG) as R. destruct (exec prog fuel s1 s oracle); auto.
         destruct R as [[e' [Heq _]] _]. discriminate.
-      + pose proof (IH f s1 s oracle e (Some e1) H1 Hc1 Hr HG) as R. destruct (exec prog fuel s1 s oracle) as [s' o'|v s' o'|d|]; auto.
+      + pose proof (IH g c s1 s oracle e (Some e1) H1 Hc1 Hk1 Hr HG) as R. destruct (exec prog fuel s1 s oracle) as [s' o'|v s' o'|d|]; auto.
         destruct R as [[e' [Heq Hr']] HG']. inversion Heq; subst. apply IH with (e := e'); auto.
     - apply andb_true_iff in Hok. destruct Hok as [Hx Ha]. apply J_assign_inv in HJ. destruct HJ as [Hst [Hu ->]].
-      destruct (inv_assign s e x (eval_atom s a) (prods_of_atom e a) Hr HG) as [R1 R2]; auto.
+      destruct (inv_assign g c s e x (eval_atom s a) (prods_of_atom e a) Hr HG) as [R1 R2]; auto.
       { intros Hv. eapply eval_atom_respects; eauto. }
       split; eauto.
     - apply J_call_inv in HJ. destruct HJ as [Hargs [Hus [Hst ->]]].
-      destruct (nth_error (p_funcs prog) g) as [fd|] eqn:Eg; [|discriminate].
+      destruct (nth_error (p_funcs prog) h) as [fd|] eqn:Eh; [|discriminate].
       apply andb_true_iff in Hok. destruct Hok as [Hok Hx]. apply andb_true_iff in Hok. destruct Hok as [Hlen Hoks].
       apply Nat.eqb_eq in Hlen.
-      destruct (FuncsOK g fd Eg) as [og [HJg Hend]].
-      destruct (call_entry s e g args (f_nparams fd) Hr HG Hargs Hoks Hus Hlen) as [Hentry HGentry].
-      pose proof (IH g (f_body fd) _ oracle _ og HJg (WF g fd Eg) Hentry HGentry) as R.
-      destruct (exec prog fuel (f_body fd) (bind_params 0 (map (eval_atom s) args) ++ globals_of s) oracle) as [s' o'|v s' o'|d|]; auto.
-      + destruct R as [[e' [Heq _]] HG']. destruct (after_call s s' e Hr HG') as [A1 A2].
-        destruct x as [y|]; [|split; eauto].
-        destruct (inv_assign _ (mark_stale ng e) y VNil [PSite (SResult g)] A1 A2) as [R1 R2]; auto.
-        { intros _. exists (PSite (SResult g)). split; [left; reflexivity|]. cbn.
-          eapply trigger_to_site; [apply Hend; congruence | exact I | discriminate]. }
-        split; eauto.
-      + destruct R as [Hv HG']. destruct (after_call s s' e Hr HG') as [A1 A2].
-        destruct x as [y|]; [|split; eauto].
-        destruct (inv_assign _ (mark_stale ng e) y v [PSite (SResult g)] A1 A2) as [R1 R2]; auto.
-        { intros Hnil. exists (PSite (SResult g)). split; [left; reflexivity|]. cbn. auto. }
-        split; eauto.
+      destruct (ctr h) eqn:Ech.
+      + (* contracted callee: runs on behalf of this call site *)
+        destruct (Hcalls h cs (or_introl eq_refl) Ech) as [Hsp Hctx].
+        destruct (CtrTrue h fd Ech Eh) as [Hnp Hct].
+        assert (Hrs : call_result_site ctr (sp2 g) h cs args = SCallResult h cs).
+        { unfold call_result_site. now rewrite Ech, Hsp. }
+        rewrite Hrs in *.
+        destruct (FuncsOK h fd (Some cs) Eh Hctx) as [og [HJh Hend]].
+        assert (Hsub : forall i, i < f_nparams fd -> psub h (Some cs) (PSite (SParam h i)) = PSite (call_param_site ctr h cs i)).
+        { intros i Hi. rewrite Hnp in Hi. assert (i = 0) by lia. subst i. unfold call_param_site. rewrite Ech. cbn.
+          now rewrite !Nat.eqb_refl. }
+        destruct (call_entry g c s e h cs args (f_nparams fd) (Some cs) Hr HG Hargs Hoks Hus Hlen Hsub) as [Hentry HGentry].
+        pose proof (IH h (Some cs) (f_body fd) _ oracle _ og HJh (WF h fd Eh) (CallsOK h fd Eh) Hentry HGentry) as R.
+        (* the argument list is a single argument *)
+        destruct args as [|a0 [|a1 rest]]; cbn in Hlen; try (rewrite Hnp in Hlen; discriminate).
+        cbn [map] in R |- *.
+        assert (Hcp : eval_atom s a0 = VNil -> nu (SCallParam h cs)).
+        { intros Hv. pose proof (arg_site g c s e h cs [a0] 0 a0 Hr Hargs Hoks Hus eq_refl Hv) as A.
+          unfold call_param_site in A. now rewrite Ech in A. }
+        pose proof (Hct fuel (globals_of s) oracle) as Hcontract.
+        destruct (exec prog fuel (f_body fd) (bind_params 0 [eval_atom s a0] ++ globals_of s) oracle) as [s' o'|v s' o'|d|] eqn:Ex; auto.
+        * (* fell off the end: result nil *)
+          destruct R as [[e' [Heq _]] HG']. destruct (after_call g c s s' e Hr HG') as [A1 A2].
+          destruct x as [y|]; [|split; eauto].
+          destruct (eval_atom s a0) eqn:Ev; [|rewrite Ex in Hcontract; contradiction].
+          destruct (inv_assign g c _ (mark_stale ng e) y VNil [PSite (SCallResult h cs)] A1 A2) as [R1 R2]; auto.
+          { intros _. exists (PSite (SCallResult h cs)). split; [left; reflexivity|].
+            assert (E : psub g c (PSite (SCallResult h cs)) = PSite (SCallResult h cs)) by (destruct c; reflexivity).
+            rewrite E. cbn.
+            replace (SCallResult h cs) with (rsub h (Some cs) (SResult h)) by (cbn; now rewrite Nat.eqb_refl).
+            eapply (tsite h (Some cs) 0 PNil (SResult h)); [apply Hend; congruence | exact I | discriminate |].
+            intros cs0 E0 _. inversion E0; subst. auto. }
+          split; eauto.
+        * destruct R as [Hv HG']. destruct (after_call g c s s' e Hr HG') as [A1 A2].
+          destruct x as [y|]; [|split; eauto].
+          destruct (inv_assign g c _ (mark_stale ng e) y v [PSite (SCallResult h cs)] A1 A2) as [R1 R2]; auto.
+          { intros Hnil. exists (PSite (SCallResult h cs)). split; [left; reflexivity|].
+            assert (E : psub g c (PSite (SCallResult h cs)) = PSite (SCallResult h cs)) by (destruct c; reflexivity).
+            rewrite E. cbn. apply (Hv Hnil). apply Hcp.
+            destruct (eval_atom s a0) eqn:Ev; auto. rewrite Ex in Hcontract. congruence. }
+          split; eauto.
+      + (* ordinary callee *)
+        assert (Hrs : call_result_site ctr (sp2 g) h cs args = SResult h).
+        { unfold call_result_site. now rewrite Ech. }
+        rewrite Hrs in *.
+        destruct (FuncsOK h fd None Eh I) as [og [HJh Hend]].
+        assert (Hsub : forall i, i < f_nparams fd -> psub h None (PSite (SParam h i)) = PSite (call_param_site ctr h cs i)).
+        { intros i _. unfold call_param_site. now rewrite Ech. }
+        destruct (call_entry g c s e h cs args (f_nparams fd) None Hr HG Hargs Hoks Hus Hlen Hsub) as [Hentry HGentry].
+        pose proof (IH h None (f_body fd) _ oracle _ og HJh (WF h fd Eh) (CallsOK h fd Eh) Hentry HGentry) as R.
+        assert (E : psub g c (PSite (SResult h)) = PSite (SResult h)) by (destruct c; reflexivity).
+        destruct (exec prog fuel (f_body fd) (bind_params 0 (map (eval_atom s) args) ++ globals_of s) oracle) as [s' o'|v s' o'|d|]; auto.
+        * destruct R as [[e' [Heq _]] HG']. destruct (after_call g c s s' e Hr HG') as [A1 A2].
+          destruct x as [y|]; [|split; eauto].
+          destruct (inv_assign g c _ (mark_stale ng e) y VNil [PSite (SResult h)] A1 A2) as [R1 R2]; auto.
+          { intros _. exists (PSite (SResult h)). split; [left; reflexivity|]. rewrite E. cbn.
+            change (SResult h) with (rsub h None (SResult h)).
+            eapply (tsite h None 0 PNil (SResult h)); [apply Hend; congruence | exact I | discriminate |].
+            intros cs0 E0. discriminate. }
+          split; eauto.
+        * destruct R as [Hv HG']. destruct (after_call g c s s' e Hr HG') as [A1 A2].
+          destruct x as [y|]; [|split; eauto].
+          destruct (inv_assign g c _ (mark_stale ng e) y v [PSite (SResult h)] A1 A2) as [R1 R2]; auto.
+          { intros Hnil. exists (PSite (SResult h)). split; [left; reflexivity|]. rewrite E. cbn. apply (Hv Hnil). }
+          split; eauto.
     - apply J_deref_inv in HJ. destruct HJ as [Hd [Hu ->]]. destruct (sget s x) eqn:E.
-      + destruct (Hr x Hok E) as [p [Hp Hn]]. eapply trigger_to_deref; eauto. eapply use_ok_in; eauto.
+      + destruct (Hr x Hok E) as [p [Hp Hn]]. eapply tderef; eauto. eapply use_ok_in; eauto.
       + eauto.
     - apply andb_true_iff in Hok. destruct Hok as [Hok Hc2]. apply andb_true_iff in Hok. destruct Hok as [Hcok Hc1].
+      apply calls_ok_if in Hcalls. destruct Hcalls as [Hk1 Hk2].
       apply J_if_inv in HJ. destruct HJ as [et [ef [trc [o1 [o2 [Ea [Hall [H1 [H2 ->]]]]]]]]].
-      pose proof (acond_sound c e et ef trc s oracle Ea Hall Hcok Hr) as Hr'.
-      destruct (eval_cond s c oracle) as [b o'|d]; auto.
+      pose proof (acond_sound g c cd e et ef trc s oracle Ea Hall Hcok Hr) as Hr'.
+      destruct (eval_cond s cd oracle) as [b o'|d]; auto.
       destruct b.
-      + pose proof (IH f s1 s o' _ o1 H1 Hc1 Hr' HG) as R. destruct (exec prog fuel s1 s o') as [s' o''|v s' o''|d|]; auto.
+      + pose proof (IH g c s1 s o' _ o1 H1 Hc1 Hk1 Hr' HG) as R. destruct (exec prog fuel s1 s o') as [s' o''|v s' o''|d|]; auto.
         destruct R as [[e' [Heq Hr'']] HG']. subst o1. split; auto. destruct o2 as [e2|]; cbn; eexists; split; eauto.
         eapply respects_le; [exact Hr''|apply join_le_l].
-      + pose proof (IH f s2 s o' _ o2 H2 Hc2 Hr' HG) as R. destruct (exec prog fuel s2 s o') as [s' o''|v s' o''|d|]; auto.
+      + pose proof (IH g c s2 s o' _ o2 H2 Hc2 Hk2 Hr' HG) as R. destruct (exec prog fuel s2 s o') as [s' o''|v s' o''|d|]; auto.
         destruct R as [[e' [Heq Hr'']] HG']. subst o2. split; auto. destruct o1 as [e1|]; cbn; eexists; split; eauto.
         eapply respects_le; [exact Hr''|apply join_le_r].
     - apply andb_true_iff in Hok. destruct Hok as [Hcok Hbok].
       apply J_while_inv in HJ. destruct HJ as [einv [et [ef [trc [ob [Hle [Ea [Hall [Hb [Hinv ->]]]]]]]]]].
-      assert (Hri : respects s einv) by (eapply respects_le; eauto).
-      pose proof (acond_sound c einv et ef trc s oracle Ea Hall Hcok Hri) as Hr'.
-      destruct (eval_cond s c oracle) as [b o'|d]; auto.
+      assert (Hri : respects g c s einv) by (eapply respects_le; eauto).
+      pose proof (acond_sound g c cd einv et ef trc s oracle Ea Hall Hcok Hri) as Hr'.
+      destruct (eval_cond s cd oracle) as [b o'|d]; auto.
       destruct b.
-      + pose proof (IH f body s o' _ ob Hb Hbok Hr' HG) as R. destruct (exec prog fuel body s o') as [s' o''|v s' o''|d|]; auto.
+      + pose proof (IH g c body s o' _ ob Hb Hbok Hcalls Hr' HG) as R. destruct (exec prog fuel body s o') as [s' o''|v s' o''|d|]; auto.
         destruct R as [[e' [Heq Hr'']] HG']. subst ob.
-        assert (HJ' : J ALL ng f (SWhile c body) einv (Some ef)).
+        assert (HJ' : J (Has g c) ng ctr (sp2 g) g (SWhile cd body) einv (Some ef)).
         { eapply JWhile; eauto. apply env_le_refl. }
-        apply (IH f (SWhile c body) s' o'' einv _ HJ'); auto.
+        apply (IH g c (SWhile cd body) s' o'' einv _ HJ'); auto.
         * cbn. now rewrite Hcok, Hbok.
         * eapply respects_le; eauto.
       + split; eauto.
     - apply J_return_inv in HJ. destruct HJ as [Hret [Hu ->]]. split; auto. intros Hv.
-      destruct (eval_atom_respects s e a Hok Hr Hv) as [p [Hp Hn]].
-      eapply trigger_to_site; eauto. eapply use_ok_in; eauto.
+      destruct (eval_atom_respects g c s e a Hok Hr Hv) as [p [Hp Hn]].
+      assert (Hs : p <> PStale) by (eapply use_ok_in; eauto).
+      destruct c as [cs|]; cbn.
+      + intros Hcp. replace (SCallResult g cs) with (rsub g (Some cs) (SResult g)) by (cbn; now rewrite Nat.eqb_refl).
+        eapply tsite; eauto. intros cs0 E0 _. inversion E0; subst. exact Hcp.
+      + change (SResult g) with (rsub g None (SResult g)). eapply tsite; eauto. intros cs0 E0. discriminate.
   Qed.
 End Sound.
 
 (* ---------- whole programs ---------- *)
-Lemma analyze_funcs_nth ng fuel : forall fds f0 tss b,
-  analyze_funcs ng fuel f0 fds = Some (tss, b) ->
+Lemma analyze_funcs_nth ng fuel ctr sp : forall fds f0 tss b,
+  analyze_funcs ng fuel ctr sp f0 fds = Some (tss, b) ->
   forall i fd, nth_error fds i = Some fd ->
-  exists t bi, analyze_func ng fuel (f0 + i) fd = Some (t, bi) /\ nth_error tss i = Some t /\ (b = true -> bi = true).
+  exists t bi, analyze_func ng fuel ctr (sp (f0 + i)) (f0 + i) fd = Some (t, bi) /\ nth_error tss i = Some t /\ (b = true -> bi = true).
 Proof.
   induction fds as [|fd0 fds IH]; intros f0 tss b H i fd Hn; [destruct i; discriminate|].
-  cbn in H. destruct (analyze_func ng fuel f0 fd0) as [[t1 b1]|] eqn:E1; try discriminate.
-  destruct (analyze_funcs ng fuel (S f0) fds) as [[t2 b2]|] eqn:E2; try discriminate.
+  cbn in H. destruct (analyze_func ng fuel ctr (sp f0) f0 fd0) as [[t1 b1]|] eqn:E1; try discriminate.
+  destruct (analyze_funcs ng fuel ctr sp (S f0) fds) as [[t2 b2]|] eqn:E2; try discriminate.
   inversion H; subst. destruct i as [|i]; cbn in Hn.
   - inversion Hn; subst. rewrite Nat.add_0_r. exists t1, b1. repeat split; auto.
     intros Hb. apply andb_true_iff in Hb. tauto.
@@ -626,51 +813,100 @@ Proof.
     exists t, bi. repeat split; auto. intros Hb. apply andb_true_iff in Hb. tauto.
 Qed.
 
+Lemma dups_all_nth ctr sp tss : forall fds f0 i fd, nth_error fds i = Some fd ->
+  nth_error (dups_all ctr sp tss f0 fds) i = Some (dups_of_caller ctr (sp (f0 + i)) tss fd).
+Proof.
+  induction fds as [|fd0 fds IH]; intros f0 i fd Hn; [destruct i; discriminate|].
+  destruct i as [|i]; cbn in Hn |- *.
+  - inversion Hn; subst. now rewrite Nat.add_0_r.
+  - replace (f0 + S i) with (S f0 + i) by lia. now apply IH.
+Qed.
+
+Lemma ctr_local_nth ctr sp : forall fds f0 i fd, ctr_local ctr sp f0 fds = true -> nth_error fds i = Some fd ->
+  forallb (fun gc => negb (ctr (fst gc)) || sp (f0 + i) (fst gc)) (calls_of (f_body fd)) = true.
+Proof.
+  induction fds as [|fd0 fds IH]; intros f0 i fd H Hn; [destruct i; discriminate|].
+  cbn in H. apply andb_true_iff in H. destruct H as [H1 H2]. destruct i as [|i]; cbn in Hn.
+  - inversion Hn; subst. now rewrite Nat.add_0_r.
+  - replace (f0 + S i) with (S f0 + i) by lia. now apply IH.
+Qed.
+
+Lemma ctr_arity_nth ctr : forall fds f0 i fd, ctr_arity ctr f0 fds = true -> nth_error fds i = Some fd ->
+  ctr (f0 + i) = true -> f_nparams fd = 1.
+Proof.
+  induction fds as [|fd0 fds IH]; intros f0 i fd H Hn Hc; [destruct i; discriminate|].
+  cbn in H. apply andb_true_iff in H. destruct H as [H1 H2]. destruct i as [|i]; cbn in Hn.
+  - inversion Hn; subst. rewrite Nat.add_0_r in Hc. rewrite Hc in H1. cbn in H1. now apply Nat.eqb_eq.
+  - replace (f0 + S i) with (S f0 + i) in Hc by lia. eapply IH; eauto.
+Qed.
+
 Lemma in_concat_nth {A} (ls : list (list A)) i l x : nth_error ls i = Some l -> In x l -> In x (concat ls).
 Proof. intros Hn Hx. apply in_concat. exists l. split; auto. eapply nth_error_In; eauto. Qed.
 
-(* If the analysis of a well-formed program completes, never calls a function while a package-level variable
-   is tracked more precisely than its site, and the emitted constraints contain no flow from a nil source to a
-   dereference, then no execution of the program dereferences nil -- whatever the opaque conditions answer and
-   however long it runs. *)
-Theorem flow_sound prog afuel decl tss :
-  analyze_program afuel prog = Some (decl, tss, true) -> wf_program prog = true ->
-  ~ has_flow (csys_of [] [] (decl ++ concat tss)) ->
+(* If the analysis of a well-formed program completes, never uses a package-level value tracked across a call
+   that may have re-assigned it, contracted functions are called from their own package only and their
+   contracts are true, and the emitted constraints contain no flow from a nil source to a dereference, then no
+   execution of the program dereferences nil -- whatever the opaque conditions answer and however long it runs. *)
+Theorem flow_sound prog afuel ctr pk r :
+  analyze_program afuel ctr pk prog = Some r -> r_gsafe r = true -> r_clocal r = true ->
+  wf_program prog = true -> ctr_arity ctr 0 (p_funcs prog) = true ->
+  (forall g fd, ctr g = true -> nth_error (p_funcs prog) g = Some fd -> contract_true prog fd) ->
+  ~ has_flow (csys_of [] [] (all_triggers r)) ->
   forall fuel oracle, panic_of (run_program prog fuel oracle) = None.
 Proof.
-  intros Han Hwf Hnf fuel oracle. unfold analyze_program in Han.
-  destruct (analyze_funcs (length (p_ginit prog)) afuel 0 (p_funcs prog)) as [[tss0 b0]|] eqn:Ef; [|discriminate].
-  inversion Han; subst. clear Han.
+  intros Han Hgs Hcl Hwf Har Hct Hnf fuel oracle. unfold analyze_program in Han.
+  set (sp2 := fun f g : fname => Nat.eqb (pk f) (pk g)) in *.
+  destruct (analyze_funcs (length (p_ginit prog)) afuel ctr sp2 0 (p_funcs prog)) as [[tss b0]|] eqn:Ef; [|discriminate].
+  inversion Han; subst r. clear Han. cbn in Hgs, Hcl. subst b0.
   apply andb_true_iff in Hwf. destruct Hwf as [Hwf Hentry].
-  set (ALL := decl_triggers 0 (p_ginit prog) ++ concat tss) in *.
-  assert (FuncsOK : forall g fd, nth_error (p_funcs prog) g = Some fd ->
-    exists o, J ALL (length (p_ginit prog)) g (f_body fd) (entry_env g 0 (f_nparams fd)) o /\
-              (o <> None -> In (mk_trigger 0 PNil (KCond (enc (SResult g)))) ALL)).
-  { intros g fd Hg. destruct (analyze_funcs_nth _ _ _ _ _ _ Ef g fd Hg) as [t [bi [A1 [A2 A3]]]]. cbn in A1.
+  set (r := {| r_decl := decl_triggers 0 (p_ginit prog); r_funcs := tss; r_dups := dups_all ctr sp2 tss 0 (p_funcs prog);
+               r_gsafe := true; r_clocal := ctr_local ctr sp2 0 (p_funcs prog) |}) in *.
+  set (ALLs := all_strigs r) in *.
+  assert (InF : forall g tg t, nth_error tss g = Some tg -> In t tg -> In t ALLs).
+  { intros g tg t Hg Ht. unfold ALLs, all_strigs. cbn. apply in_or_app. right. apply in_or_app. left. eapply in_concat_nth; eauto. }
+  assert (FuncsOK : forall g fd c, nth_error (p_funcs prog) g = Some fd -> ctx_ok prog ctr sp2 g c ->
+    exists o, J (Has ALLs g c) (length (p_ginit prog)) ctr (sp2 g) g (f_body fd) (entry_env g 0 (f_nparams fd)) o /\
+              (o <> None -> Has ALLs g c (falloff g))).
+  { intros g fd c Hg Hctx. destruct (analyze_funcs_nth _ _ _ _ _ _ _ _ Ef g fd Hg) as [tg [bi [A1 [A2 A3]]]]. cbn in A1.
     unfold analyze_func in A1.
-    destruct (analyze (length (p_ginit prog)) g afuel (f_body fd) (entry_env g 0 (f_nparams fd))) as [r|] eqn:Ea; [|discriminate].
-    inversion A1; subst. exists (a_env r). split.
-    - eapply analyze_J; eauto. intros t Ht. unfold ALL. apply in_or_app. right. eapply in_concat_nth; eauto.
-      destruct (a_env r); auto. apply in_or_app. auto.
-    - intros Hne. unfold ALL. apply in_or_app. right. eapply in_concat_nth; eauto.
-      destruct (a_env r); [|congruence]. apply in_or_app. right. left. reflexivity. }
+    destruct (analyze (length (p_ginit prog)) ctr (sp2 g) g afuel (f_body fd) (entry_env g 0 (f_nparams fd))) as [rg|] eqn:Ea; [|discriminate].
+    inversion A1; subst.
+    assert (HasTg : forall t, In t (match a_env rg with Some _ => a_trig rg ++ [falloff g] | None => a_trig rg end) -> Has ALLs g c t).
+    { intros t Ht. unfold Has, inst. destruct c as [cs|]; [|eapply InF; eauto].
+      destruct (touches g t) eqn:Et; [|eapply InF; eauto].
+      destruct Hctx as [Hcg [fc [fdc [Hfc [Hin Hsp]]]]].
+      unfold ALLs, all_strigs. cbn. apply in_or_app. right. apply in_or_app. right.
+      eapply in_concat_nth; [apply (dups_all_nth ctr sp2 tss _ 0 fc fdc Hfc)|].
+      unfold dups_of_caller. apply in_flat_map. exists (g, cs). split; auto. cbn. rewrite Hcg, Hsp. cbn.
+      unfold dups. apply in_map. apply filter_In. split; auto.
+      erewrite nth_error_nth; eauto. }
+    exists (a_env rg). split.
+    - eapply analyze_J; eauto. intros t Ht. apply HasTg. destruct (a_env rg); auto. apply in_or_app. auto.
+    - intros Hne. apply HasTg. destruct (a_env rg); [|congruence]. apply in_or_app. right. left. reflexivity. }
   assert (WF : forall g fd, nth_error (p_funcs prog) g = Some fd -> stmt_ok prog (f_body fd) = true).
   { intros g fd Hg. eapply (forallb_nth (fun fd => stmt_ok prog (f_body fd))); eauto. }
+  assert (CtrTrue : forall g fd, ctr g = true -> nth_error (p_funcs prog) g = Some fd -> f_nparams fd = 1 /\ contract_true prog fd).
+  { intros g fd Hc Hg. split; [eapply (ctr_arity_nth ctr _ 0 g); eauto | eapply Hct; eauto]. }
+  assert (CallsOK : forall g fd, nth_error (p_funcs prog) g = Some fd -> calls_ok prog ctr sp2 g (f_body fd)).
+  { intros g fd Hg h cs Hin Hc. pose proof (ctr_local_nth ctr sp2 _ 0 g fd Hcl Hg) as Hl.
+    rewrite forallb_forall in Hl. specialize (Hl (h, cs) Hin). cbn in Hl. rewrite Hc in Hl. cbn in Hl.
+    split; auto. split; auto. exists g, fd. auto. }
   unfold run_program. destruct (nth_error (p_funcs prog) 0) as [fd|] eqn:E0; [|reflexivity].
-  destruct (FuncsOK 0 fd E0) as [o [HJ _]].
+  destruct (FuncsOK 0 fd None E0 I) as [o [HJ _]].
   assert (Hnp : f_nparams fd = 0).
   { destruct (p_funcs prog) as [|fd0 rest]; [discriminate|]. cbn in E0. inversion E0; subst. now apply Nat.eqb_eq. }
   rewrite Hnp in HJ. cbn in HJ.
-  assert (HG : GInv prog ALL (init_globals 0 (p_ginit prog))).
+  assert (Hnf' : ~ has_flow (csys_of [] [] (map etrig ALLs))) by exact Hnf.
+  assert (HG : GInv prog ALLs (init_globals 0 (p_ginit prog))).
   { intros k Hk Hx. rewrite init_globals_get in Hx. cbn in Hx. rewrite Nat.sub_0_r in Hx.
     destruct (nth_error (p_ginit prog) k) as [[|]|] eqn:En; try discriminate.
-    - eapply trigger_to_site with (id := 0) (p := PNil); [|exact I|discriminate].
-      unfold ALL. apply in_or_app. left. apply (decl_triggers_in (p_ginit prog) 0 k En).
+    - eapply (tsite_plain ALLs 0 None 0 PNil (SGlobal k)); [|exact I|discriminate|reflexivity].
+      unfold Has, inst, ALLs, all_strigs. cbn. apply in_or_app. left. apply (decl_triggers_in (p_ginit prog) 0 k En).
     - apply nth_error_None in En. lia. }
-  assert (Hr : respects prog ALL (init_globals 0 (p_ginit prog)) []).
+  assert (Hr : respects prog ALLs 0 None (init_globals 0 (p_ginit prog)) []).
   { intros x Hok Hx. destruct x as [i|k]; cbn.
     - exists PNil. split; [left; reflexivity|exact I].
     - exists (PSite (SGlobal k)). split; [left; reflexivity|]. cbn. apply HG; auto. cbn in Hok. now apply Nat.ltb_lt in Hok. }
-  pose proof (J_sound prog ALL Hnf FuncsOK WF fuel 0 (f_body fd) _ oracle [] o HJ (WF 0 fd E0) Hr HG) as R.
+  pose proof (J_sound prog ctr sp2 ALLs Hnf' FuncsOK WF CtrTrue CallsOK fuel 0 None (f_body fd) _ oracle [] o HJ (WF 0 fd E0) (CallsOK 0 fd E0) Hr HG) as R.
   destruct (exec prog fuel (f_body fd) (init_globals 0 (p_ginit prog)) oracle); cbn; auto. contradiction.
 Qed.
